@@ -47,7 +47,7 @@ VPath(e) ==
 
 VPlain(e) == IF e.leak THEN "C18_NoLeak" ELSE ""
 
-Verdict(e) == CASE e.ev = "path" -> VPath(e) [] e.ev = "plain" -> VPlain(e) [] OTHER -> "unknown_event"
+Verdict(e) == CASE e.ev = "path" -> VPath(e) [] e.ev = "plain" -> VPlain(e) [] e.ev = "crash" -> "C18_Crash" [] OTHER -> "unknown_event"
 
 TraceInit == tid \in 1..Len(Traces) /\ l = 1 /\ bad = "none"
 
